@@ -1,5 +1,7 @@
-(* C06/Props.v — the property theorems (statements only; each closed by a lemma of Lemmas.v).
-   "classes", "declared", "constants" and "conv" are GENERATED from /repo on every run. *)
+(* C06/Props.v — the property theorems (statements only; each closed by lemmas of Lemmas.v).
+   "classes", "declared", "constants" and "conv" are GENERATED from /repo on every run.
+   Clauses of the property that are FALSE of the faithful model are in Refuted.v (each tied to a
+   finding key of harness/c06.py); the theorem that would have contained the clause says so. *)
 From Coq Require Import ZArith QArith Qcanon List String Bool.
 From AV.lib Require Import QcInst.
 From AV.C06 Require Import Base Model Lemmas.
@@ -9,7 +11,7 @@ Open Scope Qc_scope.
 
 (* There-and-back is the identity and conversion through an intermediate unit equals the direct
    conversion: for EVERY value class of the package, EVERY triple of its implemented units and
-   EVERY rational magnitude. *)
+   EVERY rational magnitude.  (Used by C11/Units.v: statement unchanged.) *)
 Theorem conv_roundtrip_and_path :
   forall cname cls, In (cname, cls) classes ->
   forall u v w, In u cls -> In v cls -> In w cls ->
@@ -27,125 +29,317 @@ Proof.
   - apply conv_same. apply pos_nonzero; assumption.
 Qed.
 
-(* Factors agree with the constants the package declares: each unit's factor equals the constant /
-   literal / composite product it is declared from, and equals the independent reference expression
-   over the declared constants (Model.expected_factor); Celsius is the affine shift 273.15. *)
-Theorem factors_match_constants :
-  (forall e, In e declared -> factor_ok e = true /\ matches_reference (fst (fst e)) = true) /\
-  (exists u, In u (map (fun e => fst (fst e)) declared) /\ uname u = "celsius"%string /\
-             utimes u = Q2Qc 1 /\ close ref_tol (uadd u) (qc 27315 100) = true).
+(* The same through the code path a user calls: Value.to(unit) = alias lookup + conversion.  For a
+   quantity a of the class and units v w of the class, a.to(v) succeeds, is labelled v, a.to(v).to(ua)
+   has a's number and unit, and a.to(v).to(w) is a.to(w). *)
+Theorem to_unit_roundtrip_and_path :
+  forall cname cls, In (cname, cls) classes ->
+  forall (a : value) v w, In (vu a) cls -> In v cls -> In w cls ->
+  exists b, to_unit cls a v = Some b /\ vu b = v /\ vx b = conv (vx a) (vu a) v /\
+    (exists a', to_unit cls b (vu a) = Some a' /\ vx a' = vx a /\ vu a' = vu a) /\
+    (exists c d, to_unit cls b w = Some c /\ to_unit cls a w = Some d /\ vx c = vx d /\ vu c = w /\ vu d = w).
 Proof.
-  split; [|exact celsius_shift].
-  intros e He. pose proof all_factors_declared as A. pose proof all_factors_reference as B.
-  rewrite forallb_forall in A, B. split; [apply A|apply (B e)]; exact He.
+  intros cname cls Hc a v w Ha Hv Hw.
+  destruct (class_in_disjoint _ _ Hc) as [Hd Hn]. pose proof (class_in_ok _ _ Hc) as Hok.
+  destruct (class_ok_sound _ Hok _ _ Ha Hv) as [Pa [Pv Cav]].
+  destruct (to_unit_in_class cls a v Hd Hn Pa Ha Hv) as [b [Hb [Hbx Hbu]]].
+  exists b. split; [exact Hb|]. split; [exact Hbu|]. split; [exact Hbx|].
+  assert (Pb : 0 < utimes (vu b)) by (rewrite Hbu; exact Pv).
+  assert (Hbin : In (vu b) cls) by (rewrite Hbu; exact Hv).
+  split.
+  - destruct (to_unit_in_class cls b (vu a) Hd Hn Pb Hbin Ha) as [a' [Ha' [Hx Hu]]].
+    exists a'. split; [exact Ha'|]. split; [|exact Hu].
+    rewrite Hx, Hbx, Hbu. apply conv_roundtrip_gen; try apply pos_nonzero; assumption.
+  - destruct (to_unit_in_class cls b w Hd Hn Pb Hbin Hw) as [c [Hc' [Hcx Hcu]]].
+    destruct (to_unit_in_class cls a w Hd Hn Pa Ha Hw) as [d [Hd' [Hdx Hdu]]].
+    exists c, d. split; [exact Hc'|]. split; [exact Hd'|]. split; [|split; assumption].
+    rewrite Hcx, Hdx, Hbx, Hbu.
+    destruct (class_ok_sound _ Hok _ _ Hw Hw) as [Pw _].
+    apply conv_path_gen; try apply pos_nonzero; try assumption.
+    exact (class_ok_path _ Hok _ _ _ Ha Hv Hw).
 Qed.
 
-(* Alias lookup is unambiguous inside every class, and a name that is no alias of the class's units
-   (nor of the current unit) is rejected: requesting a unit of a different kind is an error. *)
+(* Factors agree with the physical constants the package declares.  Tolerances are RELATIVE (1e-12),
+   so a factor of 1e-47 is checked to twelve digits like a factor of 1e+10.
+   (1) every unit is consistent with the way units.py declares it (constant / literal / product of
+       the component units);
+   (2) every unit's factor equals the reference derived from what its NAME means (Model.dim_of:
+       energy unit x length unit^k x mass unit^k over the declared constants) -- EXCEPT the unit
+       named "J m^-2 kg^-1", which carries the factor of J ang^-2 kg^-1 (1e20 too small for its
+       name): Refuted.factor_J_m2_kg_refuted, finding key in harness/c06.py.  For that unit the
+       theorem states exactly that alternative;
+   (3) the redundant constants of constants.py agree with each other;
+   (4) Celsius is the affine shift 273.15 with factor 1. *)
+Theorem factors_match_constants :
+  (forall e, In e declared -> factor_ok e = true) /\
+  (forall u, In u all_units ->
+      matches_reference u = true \/ (uname u = "J m^-2 kg^-1"%string /\ misnamed_ok u = true)) /\
+  consts_consistent = true /\
+  (exists u, In u all_units /\ uname u = "celsius"%string /\
+             utimes u = Q2Qc 1 /\ rclose ref_tol (uadd u) (qc 27315 100) = true).
+Proof.
+  split; [|split; [|split; [exact consts_consistent_ok|exact celsius_shift]]].
+  - intros e He. pose proof all_factors_declared as A. rewrite forallb_forall in A. apply A. exact He.
+  - intros u Hu. pose proof all_factors_reference_r3 as B. rewrite forallb_forall in B.
+    specialize (B u Hu). apply orb_true_iff in B as [B|B]; [left; exact B|right].
+    apply andb_true_iff in B as [B1 B2]. split; [apply String.eqb_eq; exact B1|exact B2].
+Qed.
+
+(* Alias lookup is unambiguous -- inside every class AND across the whole package: a name is an alias
+   of at most one unit.  Hence requesting a unit of a DIFFERENT KIND (any alias of any declared unit
+   that is not among the class's implemented units), or a name nobody declares, is the error branch
+   for scalars and arrays: never a silent reinterpretation. *)
 Theorem alias_lookup_unambiguous_and_foreign_rejected :
+  (forall a u v, In u all_units -> In v all_units -> has_alias a u = true -> has_alias a v = true -> u = v) /\
   forall cname cls, In (cname, cls) classes ->
   (forall a u, find_unit cls a = Some u -> forall v, In v cls -> has_alias a v = true -> v = u) /\
+  (forall f name, In f all_units -> ~ In f cls -> has_alias name f = true ->
+     (forall a : value, In (vu a) cls -> to_name cls a name = None) /\
+     (forall s : arr, In (aunit s) cls ->
+        arr_to cls s name = (s, RErr) /\ arr_to_ cls s name = (s, RErr))) /\
   (forall (a : value) name, has_alias name (vu a) = false ->
-      (forall u, In u cls -> has_alias name u = false) -> to_name cls a name = None) /\
-  (forall xs u name, has_alias name u = false ->
-      (forall v, In v cls -> has_alias name v = false) -> to_array cls xs u name = None).
+      (forall u, In u cls -> has_alias name u = false) -> to_name cls a name = None).
 Proof.
+  split; [intros a u v; exact (disjoint_two all_units all_units_disjoint a u v)|].
   intros cname cls Hc. destruct (class_in_disjoint _ _ Hc) as [Hd _]. split; [|split].
   - exact (aliases_disjoint_unique cls Hd).
+  - intros f name Hf Hnot Hal.
+    pose proof (foreign_alias_unknown cname cls f name Hc Hf Hnot Hal) as Hno. split.
+    + intros a Ha. apply to_name_foreign; [apply Hno; exact Ha|exact Hno].
+    + intros s Hs. unfold arr_to, arr_to_. rewrite (Hno _ Hs), (find_unit_none _ _ Hno). split; reflexivity.
   - intros a name H1 H2. apply to_name_foreign; assumption.
-  - intros xs u name H1 H2. unfold to_array. rewrite H1, (find_unit_none _ _ H2). reflexivity.
 Qed.
 
-(* Arrays convert elementwise exactly like scalars (same unit found, same error, each entry the
-   scalar conversion of that entry). *)
-Theorem array_conv_elementwise :
-  forall cls xs u name,
-  to_array cls xs u name =
-  match to_name cls (mkValue (Q2Qc 0) u) name with
-  | None => None
-  | Some r => Some (map (fun x => match to_name cls (mkValue x u) name with
-                                  | Some r' => vx r' | None => x end) xs, vu r)
-  end.
+(* Arrays convert elementwise exactly like scalars, in place or by copy.  `arr_to`/`arr_to_` model
+   ValueArray.to/to_ with the object state explicit: (source object afterwards, what is returned).
+   By copy leaves the source untouched; both raise for the same names and a refusal leaves the source
+   untouched; the array one holds after b = a.to(name) equals the array a is after a.to_(name); it is
+   labelled with the unit the name resolves to and every entry is the scalar conversion
+   Value.to(name) of that entry. *)
+Theorem array_conv_elementwise_inplace_copy :
+  forall cname cls, In (cname, cls) classes -> forall (s : arr) name, In (aunit s) cls ->
+  fst (arr_to cls s name) = s /\
+  (snd (arr_to cls s name) = RErr <-> snd (arr_to_ cls s name) = RErr) /\
+  (snd (arr_to_ cls s name) = RErr -> fst (arr_to_ cls s name) = s) /\
+  (forall b, arr_result s (snd (arr_to cls s name)) = Some b ->
+     fst (arr_to_ cls s name) = b /\
+     exists v, find_unit cls name = Some v /\ aunit b = v /\
+       axs b = map (fun x => conv x (aunit s) v) (axs s) /\
+       forall x, exists r, to_name cls (mkValue x (aunit s)) name = Some r /\ vu r = v /\
+                           vx r = conv x (aunit s) v).
 Proof.
-  intros cls xs u name. unfold to_array, to_name. cbn [vu vx].
-  destruct (has_alias name u) eqn:E.
-  - cbn [vu]. rewrite map_id. reflexivity.
-  - destruct (find_unit cls name) as [w|]; reflexivity.
+  intros cname cls Hc s name Hs.
+  destruct (class_in_disjoint _ _ Hc) as [Hd Hn]. pose proof (class_in_ok _ _ Hc) as Hok.
+  destruct (class_ok_sound _ Hok _ _ Hs Hs) as [Ps _].
+  unfold arr_to, arr_to_. destruct (has_alias name (aunit s)) eqn:E.
+  - cbn [fst snd arr_result]. split; [reflexivity|]. split; [split; discriminate|]. split; [discriminate|].
+    intros b Hb. injection Hb as <-. split; [reflexivity|].
+    destruct (find_unit_exists cls name _ Hs E) as [v Hv].
+    assert (aunit s = v) as <- by exact (aliases_disjoint_unique cls Hd name v Hv _ Hs E).
+    exists (aunit s). split; [exact Hv|]. split; [reflexivity|]. split.
+    + rewrite <- (map_id (axs s)) at 1. apply map_ext. intros x. symmetry. apply conv_same, pos_nonzero, Ps.
+    + intros x. destruct (to_name_in_class cls (mkValue x (aunit s)) name (aunit s) Hd Ps Hs Hv) as [r [Hr [Hx Hu]]].
+      exists r. split; [exact Hr|]. split; [exact Hu|exact Hx].
+  - destruct (find_unit cls name) as [v|] eqn:F; cbn [fst snd arr_result].
+    + split; [reflexivity|]. split; [split; discriminate|]. split; [discriminate|].
+      intros b Hb. injection Hb as <-. split; [reflexivity|].
+      exists v. split; [reflexivity|]. split; [reflexivity|]. split; [reflexivity|].
+      intros x. destruct (to_name_in_class cls (mkValue x (aunit s)) name v Hd Ps Hs F) as [r [Hr [Hx Hu]]].
+      exists r. split; [exact Hr|]. split; [exact Hu|exact Hx].
+    + split; [reflexivity|]. split; [split; reflexivity|]. split; [reflexivity|]. intros b Hb. discriminate.
 Qed.
 
-(* Comparison is a consistent order: never a<a; never both a<b and b<a; a<=b iff a<b or a==b;
-   and comparing gives the same answer as first converting both to ANY common unit of the class. *)
+(* An array equals (ValueArray.__eq__) its own conversion into any unit of the class, in both
+   operand orders: equality of arrays is the comparison after conversion to a common unit. *)
+Theorem array_eq_after_conversion :
+  forall cname cls, In (cname, cls) classes -> forall (s : arr) w, In (aunit s) cls -> In w cls ->
+  forall b, arr_result s (snd (arr_to cls s (uquery w))) = Some b ->
+  arr_eq cls s b = Some true /\ arr_eq cls b s = Some true.
+Proof.
+  intros cname cls Hc s w Hs Hw b Hb.
+  destruct (class_in_disjoint _ _ Hc) as [Hd Hn]. pose proof (class_in_ok _ _ Hc) as Hok.
+  destruct (class_ok_sound _ Hok _ _ Hs Hw) as [Ps [Pw Csw]].
+  pose proof (nonempty_In cls _ Hn Hs) as Ns. pose proof (nonempty_In cls _ Hn Hw) as Nw.
+  pose proof (find_unit_self cls _ Hd Ns Hs) as Fs. pose proof (find_unit_self cls _ Hd Nw Hw) as Fw.
+  unfold arr_to in Hb. destruct (has_alias (uquery w) (aunit s)) eqn:E.
+  - cbn [snd arr_result] in Hb. injection Hb as <-.
+    unfold arr_eq, arr_to. rewrite (uquery_self _ Ns). cbn [snd arr_result]. rewrite all_close_refl. split; reflexivity.
+  - rewrite Fw in Hb. cbn [snd arr_result] in Hb. injection Hb as <-.
+    assert (E2 : has_alias (uquery (aunit s)) w = false).
+    { destruct (has_alias (uquery (aunit s)) w) eqn:E2; [|reflexivity].
+      pose proof (disjoint_two cls Hd _ _ _ Hs Hw (uquery_self _ Ns) E2) as Heq.
+      rewrite <- Heq in E. rewrite (uquery_self _ Ns) in E. discriminate. }
+    unfold arr_eq, arr_to. cbn [aunit axs]. rewrite E2, Fs, E, Fw. cbn [snd arr_result axs].
+    rewrite map_conv_roundtrip by (try apply pos_nonzero; assumption). rewrite !all_close_refl. split; reflexivity.
+Qed.
+
+(* Comparison is a consistent order and equals the comparison after converting both operands to ANY
+   common unit of the class.  No premise beyond "both units belong to the class" (same or different
+   units): never a<a; never both a<b and b<a; a<=b = (a<b or a==b) and a>=b = (a>b or a==b), all
+   defined; a<b (a>b) iff it holds in every common unit w; a>b is b<a -- which is also what CPython
+   evaluates when the right operand is of a proper subclass (vs_lt/vs_gt).
+   NOT stated here: that `==` (hence <=, >=) of two quantities in DIFFERENT units is the common-unit
+   comparison -- false of Value.__eq__ (Refuted.value_eq_asymmetric_refuted); see equality_partial. *)
 Theorem comparison_consistent_order :
   forall cname cls, In (cname, cls) classes ->
   forall a b : value, In (vu a) cls -> In (vu b) cls ->
-  v_lt cls a a = Some false /\
-  (converts cls a b -> converts cls b a -> ~ (v_lt cls a b = Some true /\ v_lt cls b a = Some true)) /\
-  (forall l e, v_lt cls a b = Some l -> v_eq cls a b = Some e -> v_le cls a b = Some (l || e)) /\
-  (converts cls a b -> forall w, In w cls ->
-     (v_lt cls a b = Some true <-> conv (vx a) (vu a) w < conv (vx b) (vu b) w)).
+  v_lt cls a a = Some false /\ v_gt cls a a = Some false /\
+  ~ (v_lt cls a b = Some true /\ v_lt cls b a = Some true) /\
+  (exists l e, v_lt cls a b = Some l /\ v_eq cls a b = Some e /\ v_le cls a b = Some (l || e)) /\
+  (exists g e, v_gt cls a b = Some g /\ v_eq cls a b = Some e /\ v_ge cls a b = Some (g || e)) /\
+  (forall w, In w cls ->
+     (v_lt cls a b = Some true <-> conv (vx a) (vu a) w < conv (vx b) (vu b) w) /\
+     (v_gt cls a b = Some true <-> conv (vx b) (vu b) w < conv (vx a) (vu a) w)) /\
+  v_gt cls a b = v_lt cls b a /\ vs_lt cls a b = v_lt cls a b /\ vs_gt cls a b = v_gt cls a b.
 Proof.
   intros cname cls Hc a b Ha Hb.
-  pose proof (class_in_ok _ _ Hc) as Hok. destruct (class_in_disjoint _ _ Hc) as [_ Hne].
-  destruct (class_ok_sound _ Hok _ _ Ha Hb) as [Pa [Pb Cab]].
-  assert (Na : ualiases (vu a) <> []).
-  { unfold nonempty_aliases in Hne. rewrite forallb_forall in Hne. specialize (Hne _ Ha).
-    destruct (ualiases (vu a)); [discriminate|congruence]. }
-  split; [apply v_lt_irrefl; exact Na|]. split; [|split].
-  - intros Cv1 Cv2 [H1 H2]. unfold v_lt in H1, H2.
-    rewrite (other_in_conv _ _ _ Cv1) in H1. rewrite (other_in_conv _ _ _ Cv2) in H2.
-    cbn [option_map] in H1, H2. injection H1 as H1. injection H2 as H2.
-    apply Qcltb_lt in H1, H2. exact (lt_asym_conv _ _ _ _ Pa Pb Cab H1 H2).
-  - apply v_le_iff.
-  - intros Cv w Hw. destruct (class_ok_sound _ Hok _ _ Hw Hw) as [Pw _].
-    unfold v_lt. rewrite (other_in_conv _ _ _ Cv). cbn [option_map].
-    rewrite <- (lt_common_unit (vx a) (vx b) (vu a) (vu b) w Pa Pb Pw (class_ok_path _ Hok _ _ _ Hb Ha Hw)).
-    split; [intros H; injection H as H; apply Qcltb_lt; exact H|intros H; apply Qcltb_lt in H; rewrite H; reflexivity].
-Qed.
-
-(* Adding / subtracting quantities in different units equals the operation after conversion to a
-   common unit: the result, expressed in any unit w of the class, is the sum / difference of the
-   operands expressed in w (shift-free classes; for the affine temperature class the difference of
-   two temperatures converts by the factor alone). *)
-Theorem add_sub_via_common_unit :
-  forall cname cls, In (cname, cls) classes ->
-  forall a b : value, In (vu a) cls -> In (vu b) cls -> converts cls a b ->
-  forall w, In w cls ->
-  (uadd (vu a) = 0 -> uadd (vu b) = 0 -> uadd w = 0 ->
-     (forall r, v_add cls a b = Some r -> vu r = vu a /\
-          conv (vx r) (vu r) w = conv (vx a) (vu a) w + conv (vx b) (vu b) w) /\
-     (forall r, v_sub cls a b = Some r -> vu r = vu a /\
-          conv (vx r) (vu r) w = conv (vx a) (vu a) w - conv (vx b) (vu b) w)) /\
-  (forall r, v_sub cls a b = Some r ->
-          vx r * (utimes w / utimes (vu a)) = conv (vx a) (vu a) w - conv (vx b) (vu b) w).
-Proof.
-  intros cname cls Hc a b Ha Hb Cv w Hw.
   pose proof (class_in_ok _ _ Hc) as Hok.
   destruct (class_ok_sound _ Hok _ _ Ha Hb) as [Pa [Pb Cab]].
-  destruct (class_ok_sound _ Hok _ _ Hw Hw) as [Pw _].
-  pose proof (pos_nonzero _ Pa) as Na. pose proof (pos_nonzero _ Pb) as Nb. pose proof (pos_nonzero _ Pw) as Nw.
+  assert (Cba : compatible (vu b) (vu a)) by (destruct Cab as [H|H]; [left|right]; symmetry; exact H).
+  pose proof (other_in_total _ _ a b Hc Ha Hb) as Oab. pose proof (other_in_total _ _ b a Hc Hb Ha) as Oba.
+  pose proof (other_in_total _ _ a a Hc Ha Ha) as Oaa.
+  assert (Gab : v_gt cls a b = v_lt cls b a).
+  { unfold v_gt, v_lt. rewrite Oab, Oba. cbn [option_map]. f_equal.
+    apply Qcltb_iff. apply gt_is_lt_swapped; assumption. }
+  assert (Gba : v_gt cls b a = v_lt cls a b).
+  { unfold v_gt, v_lt. rewrite Oab, Oba. cbn [option_map]. f_equal.
+    apply Qcltb_iff. apply gt_is_lt_swapped; assumption. }
+  split; [|split; [|split; [|split; [|split; [|split; [|split; [exact Gab|split; [exact Gba|]]]]]]]].
+  - unfold v_lt. rewrite Oaa. cbn [option_map]. rewrite conv_same by (apply pos_nonzero; exact Pa).
+    rewrite Qcltb_irrefl. reflexivity.
+  - unfold v_gt. rewrite Oaa. cbn [option_map]. rewrite conv_same by (apply pos_nonzero; exact Pa).
+    rewrite Qcltb_irrefl. reflexivity.
+  - intros [H1 H2]. unfold v_lt in H1, H2. rewrite Oab in H1. rewrite Oba in H2.
+    cbn [option_map] in H1, H2. injection H1 as H1. injection H2 as H2.
+    apply Qcltb_lt in H1, H2. exact (lt_asym_conv _ _ _ _ Pa Pb Cab H1 H2).
+  - unfold v_le, v_lt, v_eq. rewrite Oab. cbn [option_map]. eexists. eexists. repeat split; reflexivity.
+  - unfold v_ge, v_gt, v_eq. rewrite Oab. cbn [option_map]. eexists. eexists. repeat split; reflexivity.
+  - intros w Hw. destruct (class_ok_sound _ Hok _ _ Hw Hw) as [Pw _].
+    pose proof (class_ok_path _ Hok _ _ _ Hb Ha Hw) as Hp.
+    unfold v_lt, v_gt. rewrite Oab. cbn [option_map]. split; apply Some_true_iff.
+    + rewrite Qcltb_lt. apply lt_common_unit; assumption.
+    + rewrite Qcltb_lt. apply gt_common_unit; assumption.
+  - unfold vs_gt. symmetry. exact Gab.
+Qed.
+
+(* A plain float operand (left or right: CPython routes  y < a  to a.__gt__(y) because Value
+   subclasses float) is compared with the raw number, consistently. *)
+Theorem float_operand_order :
+  forall (a : value) (y : Qc),
+  vf_lt a (vx a) = false /\ vf_gt a (vx a) = false /\ fv_lt (vx a) a = false /\ fv_gt (vx a) a = false /\
+  ~ (vf_lt a y = true /\ fv_lt y a = true) /\
+  (fv_lt y a = true <-> y < vx a) /\ (fv_gt y a = true <-> vx a < y) /\
+  vf_le a y = (vf_lt a y || vf_eq a y) /\ fv_le y a = (fv_lt y a || fv_eq y a).
+Proof.
+  intros a y. unfold fv_lt, fv_gt, fv_le, fv_eq, vf_le, vf_ge, vf_lt, vf_gt. rewrite !Qcltb_irrefl.
+  repeat split; try reflexivity; try (apply Qcltb_lt); try (intros H; apply Qcltb_lt; exact H).
+  intros [H1 H2]. apply Qcltb_lt in H1, H2. apply (Qclt_irrefl y). eapply Qclt_trans; eassumption.
+Qed.
+
+(* Equality -- the part that holds.  Value.__eq__ is |a - b.to(a.units)| < 1e-8 in the LEFT
+   operand's unit: defined for all operands of a class, symmetric when both have the same unit.
+   Energy.__eq__ (Energy family, both operands of one class) compares in Ha with 0.0000159: it is
+   symmetric and gives the same answer after converting both operands to any common unit w.
+   MISSING (false of the model, Refuted.value_eq_asymmetric_refuted): symmetry / unit-independence
+   of Value.__eq__, <=, >= for DIFFERENT units of the non-Energy classes. *)
+Theorem equality_partial :
+  forall cname cls, In (cname, cls) classes ->
+  forall a b : value, In (vu a) cls -> In (vu b) cls ->
+  v_eq cls a b = Some (Qcltb (Qcabs (vx a - conv (vx b) (vu b) (vu a))) eq_tol) /\
+  (vu a = vu b -> v_eq cls a b = v_eq cls b a) /\
+  (forall h, find_unit cls "ha" = Some h ->
+     e_eq cls true a b = Some (Qcltb (Qcabs (conv (vx b) (vu b) h - conv (vx a) (vu a) h)) tol_ha) /\
+     e_eq cls true a b = e_eq cls true b a /\
+     (forall w a' b', In w cls -> to_unit cls a w = Some a' -> to_unit cls b w = Some b' ->
+        e_eq cls true a' b' = e_eq cls true a b)).
+Proof.
+  intros cname cls Hc a b Ha Hb.
+  destruct (class_in_disjoint _ _ Hc) as [Hd Hn]. pose proof (class_in_ok _ _ Hc) as Hok.
+  destruct (class_ok_sound _ Hok _ _ Ha Hb) as [Pa [Pb Cab]].
+  pose proof (other_in_total _ _ a b Hc Ha Hb) as Oab. pose proof (other_in_total _ _ b a Hc Hb Ha) as Oba.
+  split; [|split].
+  - unfold v_eq. rewrite Oab. reflexivity.
+  - intros E. unfold v_eq. rewrite Oab, Oba. cbn [option_map]. rewrite E.
+    rewrite !conv_same by (apply pos_nonzero; rewrite <- E; exact Pa).
+    rewrite Qcabs_sub_sym. reflexivity.
+  - intros h Hh.
+    assert (Key : forall p q : value, In (vu p) cls -> In (vu q) cls ->
+              e_eq cls true p q = Some (Qcltb (Qcabs (conv (vx q) (vu q) h - conv (vx p) (vu p) h)) tol_ha)).
+    { intros p q Hp Hq. destruct (class_ok_sound _ Hok _ _ Hp Hq) as [Pp [Pq _]].
+      destruct (to_name_in_class cls q "ha" h Hd Pq Hq Hh) as [y [Hy [Hyx _]]].
+      destruct (to_name_in_class cls p "ha" h Hd Pp Hp Hh) as [x [Hx [Hxx _]]].
+      unfold e_eq. cbn [negb]. rewrite Hy, Hx, Hyx, Hxx. reflexivity. }
+    split; [apply Key; assumption|]. split.
+    + rewrite (Key a b Ha Hb), (Key b a Hb Ha). rewrite Qcabs_sub_sym. reflexivity.
+    + intros w a' b' Hw Ha' Hb'.
+      destruct (to_unit_in_class cls a w Hd Hn Pa Ha Hw) as [ra [Hra [Hrax Hrau]]].
+      destruct (to_unit_in_class cls b w Hd Hn Pb Hb Hw) as [rb [Hrb [Hrbx Hrbu]]].
+      rewrite Ha' in Hra. injection Hra as <-. rewrite Hb' in Hrb. injection Hrb as <-.
+      assert (Hh' : In h cls) by (apply (find_unit_some _ _ _ Hh)).
+      destruct (class_ok_sound _ Hok _ _ Hw Hh') as [Pw [Ph _]].
+      rewrite (Key a' b') by (rewrite ?Hrau, ?Hrbu; exact Hw). rewrite (Key a b Ha Hb).
+      rewrite Hrax, Hrbx, Hrau, Hrbu.
+      rewrite (conv_path_gen (vx a) (vu a) w h) by
+        (try apply pos_nonzero; try assumption; exact (class_ok_path _ Hok _ _ _ Ha Hw Hh')).
+      rewrite (conv_path_gen (vx b) (vu b) w h) by
+        (try apply pos_nonzero; try assumption; exact (class_ok_path _ Hok _ _ _ Hb Hw Hh')).
+      reflexivity.
+Qed.
+
+(* Adding / subtracting quantities in different (or equal) units equals the operation after
+   conversion to a common unit: the result, expressed in ANY unit w of the class, is the sum /
+   difference of the operands expressed in w -- for the shift-free units; the result is always
+   defined and labelled with the left operand's unit.  For every class (incl. the affine temperature
+   class) the difference converts by the factor alone, and the sum is the sum taken in the LEFT
+   operand's unit (for Celsius/Kelvin no unit-independent sum exists:
+   Refuted.temperature_sum_depends_on_unit). *)
+Theorem add_sub_via_common_unit :
+  forall cname cls, In (cname, cls) classes ->
+  forall a b : value, In (vu a) cls -> In (vu b) cls ->
+  (exists s d, v_add cls a b = Some s /\ v_sub cls a b = Some d /\ vu s = vu a /\ vu d = vu a /\
+     vx s = vx a + conv (vx b) (vu b) (vu a) /\ vx d = vx a - conv (vx b) (vu b) (vu a) /\
+     forall w, In w cls ->
+       (uadd (vu a) = 0 -> uadd (vu b) = 0 -> uadd w = 0 ->
+          conv (vx s) (vu s) w = conv (vx a) (vu a) w + conv (vx b) (vu b) w /\
+          conv (vx d) (vu d) w = conv (vx a) (vu a) w - conv (vx b) (vu b) w) /\
+       vx d * (utimes w / utimes (vu a)) = conv (vx a) (vu a) w - conv (vx b) (vu b) w).
+Proof.
+  intros cname cls Hc a b Ha Hb.
+  pose proof (class_in_ok _ _ Hc) as Hok.
+  destruct (class_ok_sound _ Hok _ _ Ha Hb) as [Pa [Pb Cab]].
+  pose proof (pos_nonzero _ Pa) as Na. pose proof (pos_nonzero _ Pb) as Nb.
+  pose proof (other_in_total _ _ a b Hc Ha Hb) as Oab.
+  unfold v_add, v_sub. rewrite Oab. cbn [option_map].
+  eexists. eexists. split; [reflexivity|]. split; [reflexivity|]. cbn [vu vx].
+  split; [reflexivity|]. split; [reflexivity|]. split; [reflexivity|]. split; [reflexivity|].
+  intros w Hw. destruct (class_ok_sound _ Hok _ _ Hw Hw) as [Pw _]. pose proof (pos_nonzero _ Pw) as Nw.
   split.
-  - intros Za Zb Zw. split; intros r Hr; unfold v_add, v_sub in Hr;
-      rewrite (other_in_conv _ _ _ Cv) in Hr; cbn [option_map] in Hr; injection Hr as <-; cbn [vu vx];
-      (split; [reflexivity|]).
+  - intros Za Zb Zw. split.
     + rewrite conv_linear_add by assumption.
       rewrite (conv_path_gen (vx b) (vu b) (vu a) w) by (try assumption; left; congruence). reflexivity.
     + rewrite conv_linear_sub by assumption.
       rewrite (conv_path_gen (vx b) (vu b) (vu a) w) by (try assumption; left; congruence). reflexivity.
-  - intros r Hr. unfold v_sub in Hr. rewrite (other_in_conv _ _ _ Cv) in Hr. cbn [option_map] in Hr.
-    injection Hr as <-. cbn [vx].
-    rewrite <- (conv_path_gen (vx b) (vu b) (vu a) w) by
+  - rewrite <- (conv_path_gen (vx b) (vu b) (vu a) w) by
       (try assumption; exact (class_ok_path _ Hok _ _ _ Hb Ha Hw)).
     rewrite conv_sub_affine by exact Na. reflexivity.
 Qed.
 
-(* non-vacuity: the generated table has classes, units, and convertible pairs *)
+(* non-vacuity: the generated table has >= 10 classes WITH units, every one of them satisfies the
+   hypotheses of the theorems above with two different units whenever it has two, the Energy class
+   resolves "ha", and the foreign-unit clause has instances *)
 Example nonvacuous :
+  (10 <= List.length (filter (fun e => match snd e with [] => false | _ => true end) classes))%nat /\
   (exists cname cls u v, In (cname, cls) classes /\ In u cls /\ In v cls /\ u <> v /\
-     converts cls (mkValue (qc 3 2) u) (mkValue (qc 5 4) v)) /\ (10 <= List.length classes)%nat.
+     converts cls (mkValue (qc 3 2) u) (mkValue (qc 5 4) v)) /\
+  (exists cls h, In ("Energy"%string, cls) classes /\ find_unit cls "ha" = Some h) /\
+  (exists cname cls f, In (cname, cls) classes /\ cls <> [] /\ In f all_units /\ ~ In f cls).
 Proof.
-  split.
+  split; [vm_compute; repeat constructor|]. split; [|split].
   - exists "Energy"%string, [u_ha; u_kcalmol; u_kjmol; u_ev; u_J], u_ha, u_kcalmol.
     split; [vm_compute; tauto|]. split; [left; reflexivity|]. split; [right; left; reflexivity|].
     split; [intros E; inversion E|]. split; vm_compute; reflexivity.
-  - vm_compute. repeat constructor.
+  - exists [u_ha; u_kcalmol; u_kjmol; u_ev; u_J], u_ha. split; [vm_compute; tauto|vm_compute; reflexivity].
+  - exists "Temperature"%string, [u_kelvin; u_celsius], u_ha.
+    split; [vm_compute; tauto|]. split; [discriminate|]. split; [vm_compute; tauto|].
+    intros [E|[E|[]]]; inversion E.
 Qed.
